@@ -96,8 +96,8 @@ fn c20(ctx: &CheckCtx) -> CheckResult {
     // (D)(ii) lazy_static wrapper: re-initialised per execution (C14 oracle)
     let iso = Mode {
         iso_check: true,
-        iso_max_b: if thorough { 0 } else { 6 },
-        max_execs: if thorough { 3000 } else { 400 },
+        iso_max_b: if thorough { 24 } else { 6 },
+        max_execs: if thorough { 1000 } else { 400 },
         ..Mode::default()
     };
     run_part(ctx, &mut res, "part_D_lazy_static_wrapper", &[("wiso", "quick", iso)], &wanted_d, left(0.9));
